@@ -7,9 +7,27 @@ HOOK_COMMITS = ["89cc7e2"]
 
 # id -> (technique, level text, level note, design_ref)
 CLAIMED = {
+ "C01": ("proptest-generated SQL statements (choice-tape grammar generator) over generated small tables, differential against an independent reference SQL evaluator (refsql, itself cross-checked against SQLite)",
+         "Generated statements over the full grammar of the property (projection, WHERE, all join kinds, GROUP BY/HAVING, DISTINCT, ORDER BY/LIMIT/OFFSET with tie-group validity, set operations, derived tables, CTEs, correlated/uncorrelated subqueries, CASE/COALESCE/IN/BETWEEN/LIKE) on tables with NULLs and duplicates and random batch splits; engine answer must equal the reference multiset / ORDER BY tie groups, an engine error is allowed. Two generated checks: a core grammar measured free of open findings, and the full grammar whose disagreements are attributed to an open finding only through precise signature predicates (kf_sql.rs). Exploration: thousands of cases per run, ~100+ distinct NULL/duplicate-sensitive multi-clause statements.",
+         "Trusts refsql (validated against SQLite on ~15k generated statements with zero semantic disagreement) and the harness comparison rules (DESIGN 3.4). Statements producing -0.0/NaN, integer overflow or LIMIT inside sub-selects are excluded by construction.", "5 C01"),
+ "C36": ("proptest over 187 function signatures: engine evaluation over columns, re-sliced batches, literals and mixed paths, compared with independent Rust references, algebraic laws / known-answer vectors, and NULL-propagation rules",
+         "Each generated case evaluates one scalar function on 1-16 argument tuples four ways (column batch, re-sliced batches, all-literal, mixed) and demands agreement with an independent reference where a repo document settles the value, with laws (round-trips, idempotence, digest known answers) elsewhere, NULL-in-NULL-out for strict arguments, and equality of all evaluation paths. Exploration; path-only functions get the weaker oracle (stated in DESIGN).",
+         "References are taken from the repository's function tests / Trino plan docs; regions no document settles are compared for path agreement only.", "5 C36"),
+ "C37": ("proptest: encode/decode round-trip against the logical array model; SIMD helpers differential against the equivalent arrow kernels",
+         "Generated Int32/Int64/Float64/Utf8/Boolean arrays (NULLs with hidden values, runs, constants, slices) must survive encode_optimal().decode() with identical type/length/validity/values; filter/compare/add/multiply/sum/count helpers must equal arrow::compute. Exploration with open known findings for the validity-blind helpers (signature-classified, search continues behind them).",
+         "arrow kernels are the reference for the SIMD helpers, as the property states.", "5 C37"),
+ "C38": ("proptest: vector distance kernels and their SQL forms against f64 reference formulas with an analytic error bound; slicing invariance; error/NULL contracts",
+         "l2_distance/cosine_distance/cosine_similarity/dot_product on generated FixedSizeList<Float32,d> batches (d 1..1024 dense around lane multiples, NULL rows, slices, related/zero/spiky vectors) must match the f64 formula within 4*d*eps*sum|terms|+1e-6, be slice-invariant bit for bit, reject dimension mismatches and propagate NULL. Exploration.",
+         "Component magnitudes restricted to 0 or 1e-15..1e15 (f32 accumulation by design).", "5 C38"),
+ "C39": ("generated (scale factor, seed) pairs: repeat/concurrent/Parquet-roundtrip determinism, row-count ratios, foreign-key containment",
+         "Each (sf, seed) pair is generated twice sequentially, on 4 concurrent threads and once through Parquet; all must be cell-identical, row counts within 1 of ratio*sf, and the 8 single-column foreign keys the generator claims must hit existing rows (o_custkey excluded: documented 1.5x range). Exploration over 12 pairs (quick) / 300 (thorough).",
+         "Only small scale factors (<=0.05) are explored.", "5 C39"),
+ "C40": ("proptest: CLI CSV/JSON writers round-tripped through the csv crate + a strict RFC 4180 reader and serde_json",
+         "Generated result batches (strings built from quotes, commas, CR/LF, control chars, BOM, non-ASCII; numbers incl. NaN/inf/extremes; hot column names; 0-3 batches) are formatted by the real /repo/src/cli/output.rs (compiled into the harness) and must parse back to exactly the displayed cell text / values. Exploration.",
+         "The REPL sub-process path is not exercised (it only calls the same formatter).", "5 C40"),
  "C42": ("proptest: render(set) -> parse round-trip against a set model; exhaustive small grid + generated for the fan-out bounds",
          "Generated cpulists (ranges, singletons, overlaps, disorder, whitespace, junk tokens) must parse to exactly the sorted set they denote; workers_for bounds checked on an exhaustive 40x40 grid plus generated extremes. Exploration: thousands of distinct non-trivial lists per run, no proof of absence.",
-         "Trusts the harness's renderer/denotation model; junk is limited to tokens with no numeric reading.", "§5 C42"),
+         "Trusts the harness's renderer/denotation model; junk is limited to tokens with no numeric reading.", "5 C42"),
 }
 
 LEVEL_CATEGORY = {"C10": "fault_enumeration"}
